@@ -71,6 +71,11 @@ pub fn gen(seed: u64, idx: u64, tier: Tier) -> Case {
         if rng.chance(1, 2) {
             // DIFAT sectors in a small file (both versions): the DIFAT-sector deviations apply
             plan.extra_fat_sectors = 108 + rng.range(1, 8) as u32;
+            if version == 3 && rng.chance(1, 3) {
+                // two DIFAT sectors
+                plan.extra_fat_sectors = 0;
+                plan.total_fat_sectors = 237 + rng.below(100) as u32;
+            }
         }
         c.init = Init::Foreign { content_seed: rng.next_u64(), max_entries: 14, max_stream: 9000, plan };
     } else {
@@ -321,6 +326,52 @@ fn run_inner(case: &Case, _known: &BTreeSet<String>) -> Outcome {
         }
         if only >= 0 || case.param("combo", -1) >= 0 && false {
             break 'all;
+        }
+        // every PAIR of recipes (one representative place per recipe and variant): a repair
+        // of one deviation may lean on a field another deviation damaged
+        if only < 0 && case.param("only_combo", -1) < 0 {
+            let mut reps: Vec<usize> = vec![];
+            let mut seen: BTreeSet<(&str, String)> = BTreeSet::new();
+            for (i, d) in devs.iter().enumerate() {
+                let variant = if d.recipe.starts_with("wrong-num-") || d.recipe == "v3-num-dir-sectors" { d.place.clone() } else { String::new() };
+                if seen.insert((d.recipe, variant)) {
+                    reps.push(i);
+                }
+            }
+            let only_pair = case.param("only_pair", -1);
+            let mut pi = -1i64;
+            for a in 0..reps.len() {
+                for b in a + 1..reps.len() {
+                    let (da, db) = (&devs[reps[a]], &devs[reps[b]]);
+                    if da.recipe == db.recipe || overlap(da, db) {
+                        continue;
+                    }
+                    pi += 1;
+                    if only_pair >= 0 && only_pair != pi {
+                        continue;
+                    }
+                    let img = db.apply(&da.apply(&base.image));
+                    let desc = format!("{} @ {} + {} @ {}", da.recipe, da.place, db.recipe, db.place);
+                    hashes.insert(crate::prng::fnv(&img));
+                    judged += 1;
+                    o.stats.sub_runs += 2;
+                    o.stats.boundary_checks += 1;
+                    *o.stats.faults_fired.entry("F-FC:recipe-pair".into()).or_insert(0) += 1;
+                    let mut recipes = [da.recipe, db.recipe];
+                    recipes.sort();
+                    if !judge(&mut o, &img, &desc, &recipes.join("+"), true) {
+                        let mut rc = case.clone();
+                        rc.params.insert("only_pair".into(), pi);
+                        rc.params.insert("only_deviation".into(), -2);
+                        rc.params.insert("only_combo".into(), -2);
+                        o.replay_case = Some(rc);
+                        break 'all;
+                    }
+                }
+            }
+            if only_pair >= 0 {
+                break 'all;
+            }
         }
         // combinations
         let ncombo = if devs.len() >= 2 { (devs.len() * 2).min(120) } else { 0 };
